@@ -12,6 +12,7 @@ from .Parser import Literals            # literal string comaprison (several
 from .Parser import Digit               # 1 digit
 from .Parser import Number              # any length number
 from .Parser import String              # any length string
+from .Parser import EOS                 # end of input
 from .Parser import Filler              # Fillers are for checking if correct
 #                                         syntanx are given. Are not recorded.
 """
@@ -31,7 +32,7 @@ Rangarajan, S., Bhan, A., and Daoutidis, P.,
     10.1016/j.compchemeng.2012.06.008
 """
 strict_grammar = ('RINGInput', {
-    'RINGInput': Either('Fragment', 'ReactionRule'),
+    'RINGInput': All(Either('Fragment', 'ReactionRule'), EOS()),
     'Fragment': All('Prefix', Filler('fragment'), 'FragmentName',
                     Filler('{'), 'MolQuery', Filler('}')),
     'FragmentName': String(),
